@@ -116,6 +116,7 @@ type sphPkt struct {
 	delivered bool // reached the model peer
 	gone      bool // acked, lost or discarded
 	sendIdx   int
+	ord       int // global send ordinal
 }
 
 type sphFrameState struct {
@@ -196,7 +197,11 @@ func runSPH(t *testing.T, ksc KScenario, res *KResult) {
 	gotAck := false
 	retried := false
 	ended := false
+	migrated := false
 	curMTU := protocol.ByteCount(1200)
+	var peerECT0, peerCE uint64 // ECN counters of the model peer (application space)
+	sendOrd := 0                // global send ordinal
+	lastCutOrd := -1            // ordinal of the newest packet that had been sent when the window was last reduced
 
 	ampLimited := func() bool { return !validated && bytesSent >= 3*bytesRcvd }
 
@@ -343,8 +348,19 @@ func runSPH(t *testing.T, ksc KScenario, res *KResult) {
 		m.what = what
 		hi.SentPacket(now, pn, protocol.InvalidPacketNumber, nil, frames, lvl, ecn, size, p.mtu, p.pathProbe)
 		bytesSent += size
+		sendOrd++
+		p.ord = sendOrd
 		sent[sp] = append(sent[sp], p)
 		p.delivered = !netLoss
+		if p.delivered && ecn == protocol.ECT0 {
+			// the path marks some packets as congestion-experienced
+			if sc.ECN && KMix(sc.Seed, uint64(sendOrd))%6 == 0 {
+				peerCE++
+				res.Probe("ecn-ce-marked")
+			} else {
+				peerECT0++
+			}
+		}
 		if netLoss {
 			res.Fault("packet-lost")
 		}
@@ -395,8 +411,19 @@ func runSPH(t *testing.T, ksc KScenario, res *KResult) {
 		}
 		// a peer also acknowledges whole runs across skipped numbers? No: it never received them.
 		ack := &wire.AckFrame{AckRanges: ranges, DelayTime: delay}
+		if sp == 2 {
+			ack.ECT0, ack.ECNCE = peerECT0, peerCE
+		}
 		now := monotime.Now()
 		lvl := sphLevels[sp]
+		cwndBefore := h.congestion.GetCongestionWindow()
+		// ordinal of the newest packet this ACK can concern (acknowledged, or declared lost below it)
+		ackOrd := -1
+		for _, p := range sent[sp] {
+			if p.pn <= ranges[0].Largest && p.ord > ackOrd {
+				ackOrd = p.ord
+			}
+		}
 		if sc.Server {
 			hi.ReceivedBytes(60, now)
 			bytesRcvd += 60
@@ -412,6 +439,21 @@ func runSPH(t *testing.T, ksc KScenario, res *KResult) {
 		res.Logf("ack %s %v delay=%v err=%v", sphSpaceName[sp], ranges, delay, err)
 		if err != nil {
 			res.Fail("honest ACK rejected", "%s %v: %v", sphSpaceName[sp], ranges, err)
+		}
+		// C20 clause on the real handler + sender: the window shrinks at most once per window of packets. Judged when only
+		// the application space is left (packet numbers of different spaces are not comparable for the sender's guard).
+		if cw := h.congestion.GetCongestionWindow(); cw < cwndBefore {
+			res.Probe("cwnd-reduced")
+			if sp == 2 && !alive[0] && !alive[1] && lastCutOrd >= 0 && ackOrd <= lastCutOrd && !migrated {
+				res.Fail("congestion window reduced twice for packets of one window (every packet the ACK concerns was sent before the previous reduction)", "cwnd %d -> %d; newest packet concerned has send ordinal %d, previous reduction happened after ordinal %d", cwndBefore, cw, ackOrd, lastCutOrd)
+			}
+			// (a reduction that happened while other number spaces existed is not a usable reference:
+			// the sender's guard compares packet numbers, which are only comparable within one space)
+			if sp == 2 && !alive[0] && !alive[1] {
+				lastCutOrd = sendOrd
+			} else {
+				lastCutOrd = -1
+			}
 		}
 	}
 
@@ -650,6 +692,7 @@ func runSPH(t *testing.T, ksc KScenario, res *KResult) {
 				m.what = what
 				hi.MigratedPath(monotime.Now(), 1200)
 				res.Probe("migrated")
+				migrated = true
 				res.Shape("M")
 				for _, p := range sent[2] {
 					if p.pathProbe && !p.gone {
